@@ -118,7 +118,7 @@ func TestWorker(t *testing.T) {
 			if ex, ok := h.(core.Expander); ok && res.Sig == "" && res.Anomaly == "" {
 				for _, p2 := range ex.Expand(plan, res) {
 					r2 := core.Execute(t, h, p2)
-					if r2.Sig != "" || r2.Anomaly != "" {
+					if r2.Sig != "" || r2.Anomaly != "" || keepPlan {
 						r2.Plan = p2
 					}
 					fmt.Fprintln(w, core.MarshalLine(r2))
